@@ -18,15 +18,15 @@ Vector(s) ==
   LET ms  == Mentions(s)
       o0  == OutcomeCut(s, 0)          \* prefix inputs deliver nothing
       pi  == SetToSeq(PrefixIdx(s, ms))
-  IN [tree    |-> [i \in DOMAIN s.tree |-> [p |-> PathStr(s.tree[i].p), k |-> s.tree[i].k, data |-> s.tree[i].data]],
+  IN [tree    |-> [i \in DOMAIN s.tree |-> [p |-> PathStr(s.tree[i].p), k |-> s.tree[i].k, data |-> s.tree[i].data, tr |-> s.tree[i].tr]],
       stdin   |-> s.stdin,
       usestdin |-> UsesStdin(s.args),
       argv    |-> [i \in DOMAIN s.args |-> PathStr(s.args[i])],
       args    |-> s.args,
-      rec     |-> s.rec, gz |-> s.gz, readers |-> s.readers, cmd |-> s.cmd,
+      rec     |-> s.rec, gz |-> s.gz, readers |-> s.readers, cmd |-> s.cmd, nofile |-> s.nofile,
       mentions |-> [i \in DOMAIN ms |-> NameOf(ms[i])],
       exp     |-> [rows |-> TallySeq(o0.tally), nerr |-> o0.nerr, exit |-> o0.exit, msg |-> o0.msg,
-                   matched |-> o0.matched, read |-> o0.read, parse |-> o0.parse,
+                   matched |-> o0.matched, read |-> o0.read, parse |-> o0.parse, maxopen |-> MaxOpen(s),
                    partial |-> [i \in DOMAIN pi |-> [name |-> NameOf(ms[pi[i]]), full |-> ReadOutcome(s, ms[pi[i]]).full]]]]
 
 Dump == PrintT("VFJ " \o ToJson(Vector(sc)))
